@@ -3,14 +3,19 @@
 ws=$1; shift
 cd /verif
 git add -A; git commit -qm "wip before integrating $ws" 2>/dev/null
-git pull --no-edit /tmp/w/$ws/verif main >/tmp/integrate_$ws.log 2>&1
+git pull --no-edit /tmp/w/$ws/verif HEAD >/tmp/integrate_$ws.log 2>&1
 for f in $(git diff --name-only --diff-filter=U); do
   case "$f" in
-    evidence/*|coq/.nia.cache|coq/.lia.cache) git checkout --ours -- "$f"; git add "$f";;
+    evidence/*|coq/.nia.cache|coq/.lia.cache|MANIFEST.json|known_findings.json|docs/STATUS.md|docs/SEEDED.md|docs/FINDINGS.md)
+      # rewritten by every run / generated below
+      git checkout --ours -- "$f" 2>/dev/null || git rm -q --cached "$f"; git add "$f" 2>/dev/null;;
+    seeded/*/meta.json) git checkout --theirs -- "$f"; git add "$f";;
     *) echo "CONFLICT needs manual resolution: $f";;
   esac
 done
 if [ -z "$(git diff --name-only --diff-filter=U)" ]; then git commit -q --no-edit 2>/dev/null; fi
 for c in "$@"; do git -C /repo cherry-pick $c 2>&1 | grep -E "^\[main|error|CONFLICT"; done
 python3 harness/mkmanifest.py
-git -C /repo log --oneline | head -3
+python3 harness/mkreport.py >/dev/null 2>&1
+git log --oneline | head -2
+git -C /repo log --oneline | head -2
